@@ -12,5 +12,7 @@ CONSTANTS
   MaxSpur = 1
   SoloOn = FALSE
   Bug = ""
+  Hist = "off"
+  UseFast = TRUE
 INVARIANTS Refines
 CHECK_DEADLOCK FALSE
